@@ -129,11 +129,15 @@ def check_levels(case, acc):
 
     passed = {"lv": tuple(lv) if case.get("dtype") == "tuple-levels" else lv}  # (the closure below must not capture `lv` itself)
 
+    built = []
+
     def design(formula):
         acc.calls += 1
         acc.traces += 1
         dm = design_matrices(formula, df, extra_namespace=passed)
-        return list(dm.common.as_dataframe().columns), np.asarray(dm.common.design_matrix, dtype=float)
+        labs, X = list(dm.common.as_dataframe().columns), np.asarray(dm.common.design_matrix, dtype=float)
+        built.append((formula, dm, labs, X.copy()))
+        return labs, X
 
     def ind(l):
         return np.array([1.0 if v == l else 0.0 for v in col])
@@ -171,6 +175,42 @@ def check_levels(case, acc):
                 rest = [l for l in lv if l != ref]
                 if labs != ["Intercept"] + [f"{call}[{l}]" for l in rest] or not all(np.array_equal(X[:, j + 1], ind(l) - ind(ref)) for j, l in enumerate(rest)):
                     problems.append(("reference-honoured", f"'{call}' with lv={lv}: columns {labs}"))
+    # the designs keep their labels and their coding: reading the labels again, the same call followed by another term,
+    # and later frames (a categorical column declaring another order; the caller's `lv` rebound meanwhile)
+    for formula, dm, labs, X in list(built):
+        again = list(dm.common.as_dataframe().columns)
+        per_term = [l for t in dm.common.terms.values() for l in t.labels]
+        if again != labs or per_term != labs:
+            problems.append(("labels-stable", f"{formula!r} with lv={lv}: labels {labs}, read again {again}, per term {per_term}"))
+            break
+    if n > 1:
+        for call in ("C(v, levels=lv)", "S(v, levels=lv)", f"T(v, '{lv[-1]}', levels=lv)"):
+            l1, X1 = design(f"y ~ 0 + {call}")
+            dm2 = design_matrices(f"y ~ 0 + {call} + y", df, extra_namespace=passed)
+            acc.calls += 1
+            for rep in range(2):
+                l2 = list(dm2.common.as_dataframe().columns)
+                per_term = [l for t in dm2.common.terms.values() for l in t.labels]
+                if l2 != l1 + ["y"] or per_term != l2 or not np.array_equal(np.asarray(dm2.common.design_matrix, dtype=float)[:, :-1], X1):
+                    problems.append(("labels-stable", f"'0 + {call} + y' with lv={lv} (reading {rep + 1}): labels {l2} / per term {per_term}, expected {l1 + ['y']} with the same columns"))
+                    break
+        later = df.copy()
+        later["v"] = pd.Categorical(list(df["v"]), categories=sorted(base, reverse=(case.get("dtype") != "ordered")), ordered=True)
+        passed["lv"] = type(passed["lv"])(list(passed["lv"])[::-1])  # the caller's name now means another order
+        for formula, dm, labs, X in built:
+            for what, nd in (("the training frame", df), ("a frame whose column is an ordered Categorical declaring another order", later)):
+                acc.calls += 1
+                try:
+                    got = np.asarray(dm.common.evaluate_new_data(nd).design_matrix, dtype=float)
+                except Exception as e:
+                    problems.append(("coding-kept-on-new-data", f"{formula!r} with lv={lv}: evaluate_new_data on {what} raised {type(e).__name__}: {e}"))
+                    break
+                if got.shape != X.shape or not np.array_equal(got, X):
+                    problems.append(("coding-kept-on-new-data", f"{formula!r} built with lv={lv}: evaluate_new_data on {what}, after the caller rebound lv, does not reproduce the training matrix"))
+                    break
+            else:
+                continue
+            break
     report(case, acc, problems, nontrivial=len(perm) > 2)
 
 
